@@ -57,8 +57,8 @@ CHECKS['C11'] = dict(engine='S', tech='execution of the real generator construct
     text='partial claim (derivation structure only): every vector generator is block i of SHAKE256("GeneratorsChain"|G/H|LE32(party)), every blinding generator SHA3-512 of its indexed label, the value generator the basepoint; all are distinct basis elements and none the identity in the model; compressed accessors and the precomputed table (interleaved, party/index order) belong to the same points. Sizes are enumerated up to (64,32)',
     note='A1 (distinct oracle inputs => distinct points), A5; NOT claimed: distinctness of the actual Ristretto points (concrete cryptography) and the concurrency part (see C18)', ref='§5 C11')
 CHECKS['C19'] = dict(engine='S', tech='symbolic execution of the real transcript / nonce / codec code on model crates and structural comparison of the recorded hash inputs with the frozen 0.4.0 layout; plus concrete recorded vectors and an independent reference verifier on the real crates',
-    text='partial claim: (layout) for every lattice configuration the verifier\'s recorded transcript (labels, order, lengths, which object is absorbed where, LE64 integers), the seed-nonce key layout and the proof byte layout equal the frozen 0.4.0 specification for all symbolic contents; (concrete, stated as enumeration) 16 proofs/masks recorded from the pinned tree are reproduced byte for byte, the library\'s verdict agrees with an independent unoptimised paper-form verifier on honest and altered proofs, generator bytes equal an independent SHAKE256/SHA3-512 derivation',
-    note='A3, A5; the solver plays no role in the concrete part; no independent prover', ref='§5 C19')
+    text='partial claim: (layout) for every lattice configuration the verifier\'s recorded transcript (labels, order, lengths, which object is absorbed where, LE64 integers), the seed-nonce key layout and the proof byte layout equal the frozen 0.4.0 specification for all symbolic contents; (concrete, stated as enumeration) 16 proofs/masks recorded from the pinned tree are reproduced byte for byte, the library\'s verdict agrees with an independent unoptimised paper-form verifier on honest and altered proofs, proofs from an independent paper-form prover are accepted and their masks recovered, generator bytes equal an independent SHAKE256/SHA3-512 derivation',
+    note='A3, A5; the solver plays no role in the concrete part; the reference prover/verifier share the hash and curve crates with the library', ref='§5 C19')
 CHECKS['C20'] = dict(engine='K', tech='Kani/CBMC bounded model checking of the compiled real source: harnesses drop the owning types / run nonce() on symbolic secret bytes with the deallocation primitive replaced by a block-inspecting checker',
     text='partial claim: for CommitmentOpening, RangeWitness, ExtendedMask drops and for nonce() as a unit, CBMC shows that no heap block released during the harness contains a secret byte, for ALL secret byte values (container shapes enumerated, unwinding assertions on, vacuity twin). The statement seed and the prover / verifier temporaries are covered by a concrete allocator scan on the real crates (ordinary executions, stated as such)',
     note='A6 (dev profile, CBMC memory model), stubs listed in the evidence; NOT claimed by the solver: RangeStatement drop, prove/verify temporaries, stack copies', ref='§5 C20')
